@@ -40,7 +40,7 @@ pub fn run_check(replay: Option<Value>) -> i32 {
         dim("span", &spans),
         dim("jacobian", &["user", "finite-difference"]),
         dim("events", &["none", "three event functions", "two roots 1e-6*span apart, the second terminal", "two roots 1e-6*span apart, the first terminal"]),
-        dim("first_step", &["auto", "given"]),
+        dim("first_step", &["auto", "given", "given, half the span (rejected at once: the first output stays pending)"]),
     ];
     lattice(&mut rep, "reflect", &dims, only.as_deref(), |key, idx| {
         let m = M6[idx[0]];
@@ -57,6 +57,12 @@ pub fn run_check(replay: Option<Value>) -> i32 {
         c.user_jac = idx[4] == 0;
         if idx[6] == 1 {
             c.first_step = Some(span / 50.0);
+        }
+        if idx[6] == 2 {
+            if m == Method::RK4 {
+                return None;
+            }
+            c.first_step = Some(span / 2.0);
         }
         if idx[5] == 1 {
             c.events = vec![EventSpec::new(EvKind::Y(0, 0.7 * p.y0[0])), EventSpec::new(EvKind::Cos(2.0)).dir(Direction::Positive), EventSpec::new(EvKind::T(x0 + 0.37 * span))];
@@ -153,7 +159,7 @@ pub fn run_check(replay: Option<Value>) -> i32 {
 
     // (b) power-of-two scaling of state and atol on linear homogeneous systems, (c) scalar vs vector tolerance
     let lprobs = linear_problems();
-    let ks = [-200i32, -60, -20, -3, 1, 10, 40, 200];
+    let ks = [-500i32, -200, -60, -20, -3, 1, 10, 40, 200, 500];
     let dims_b = vec![
         dim("method", &M6.iter().map(|m| mname(*m)).collect::<Vec<_>>()),
         dim("problem", &lprobs.iter().map(|p| p.name.clone()).collect::<Vec<_>>()),
@@ -400,7 +406,7 @@ pub fn run_check(replay: Option<Value>) -> i32 {
     for t in ["reflection-bitwise-equal", "events-mirrored", "scaling-checked", "tolerance-vector-checked", "copies-checked"] {
         rep.require(t, 20);
     }
-    rep.rule = "symmetry generators applied to every lattice point: (a) time reflection z'=-f(-s,z) on [-x0,-xend]: bitwise for explicit methods and implicit ones with the user Jacobian, 1e-6 with the finite-difference Jacobian, events mirrored within 4e-11; (b) state and atol scaled by 2^k, k in {-200,-60,-20,-3,1,10,40,200}, on linear homogeneous systems: bitwise; (c) scalar tolerance as constant vector: bitwise; (d) m in {2,3,4,8,16} identical copies, first_step given and automatic: copies bitwise equal inside the run, same naccpt/nrejct and trajectories within 1e-5 of the single system; distinct = distinct RHS fingerprints".into();
+    rep.rule = "symmetry generators applied to every lattice point: (a) time reflection z'=-f(-s,z) on [-x0,-xend]: bitwise for explicit methods and implicit ones with the user Jacobian, 1e-6 with the finite-difference Jacobian, events mirrored within 4e-11; (b) state and atol scaled by 2^k, k in {-500,-200,-60,-20,-3,1,10,40,200,500}, on linear homogeneous systems: bitwise; (c) scalar tolerance as constant vector: bitwise; (d) m in {2,3,4,8,16} identical copies, first_step given and automatic: copies bitwise equal inside the run, same naccpt/nrejct and trajectories within 1e-5 of the single system; distinct = distinct RHS fingerprints".into();
     rep.assumptions.push("bitwise equality is only demanded where IEEE arithmetic makes the symmetry exact (negation, powers of two, identical operation sequences)".into());
     rep.finish()
 }
